@@ -714,7 +714,7 @@ def run(ck: Check):
     ck.log(f"proofs ok={ok_p} ({_t.time() - t0:.0f}s)")
 
     rng = random.Random(ck.seed * 7919 + 3)
-    n = ck.n(72, 1500)
+    n = ck.n(200, 4000)
     scs = []
     for fn in sorted(glob.glob(os.path.join(VERIF, "corpus", "C03", "*.json"))):
         sc = json.load(open(fn))
